@@ -461,7 +461,17 @@ fn exec(acc: &mut Acc, base: &Base, s: &Signed, km: &KeyMap, hist: &[&str], corr
     let distinct = ids.iter().collect::<HashSet<_>>().len() == ids.len();
     let all_valid = km.entries.iter().all(|(_, i)| *i != 9 && valid.contains(i));
     let allowed = !km.entries.is_empty() && distinct && all_valid && identity;
+    // the verdict must not depend on the requested summary name (public parameter)
     let v = world::verify(&parsed, to_map(km), &base.dir);
+    let v_named = world::verify_named(&parsed, to_map(km), &base.dir, Some("final-product"));
+    if v.is_ok() != v_named.is_ok() {
+        let why = if v_named.is_ok() && !allowed { "accepted-with-requested-name" } else { "verdict-depends-on-requested-name" };
+        if v_named.is_ok() && !allowed {
+            acc.violation(&format!("accepted:{why}"), "verification with a requested summary name succeeded although the statement's condition fails", || state_json(base.name, s, km, hist, corr, cidx, bit));
+        } else {
+            acc.note(why);
+        }
+    }
     acc.outcome(&format!("{}|{}", v.tag(), if allowed { "allowed" } else { "forbidden" }));
     let witness = || state_json(base.name, s, km, hist, corr, cidx, bit);
     match &v {
